@@ -16,7 +16,7 @@ FLAT = z3.Function("NESTED_DEPS_PREFIX", SI, I, SI)
 
 def get_deps(prop="C06"):
     c = base(Contract("ford.fortran_project", "Project.correlate.get_deps", prop))
-    c.fields.update({"uses": "list:ref", "interfaces": "list:ref", "routines": "list:ref", "procedure": "ref"})
+    c.fields.update({"uses": "list:ref", "interfaces": "list:ref", "absinterfaces": "list:ref", "routines": "list:ref", "procedure": "ref"})
     c.param("item", TRef("FortranCodeUnit"))
     c.hints["listcomp"] = "ref"
     c.hints["list"] = "ref"
@@ -24,14 +24,17 @@ def get_deps(prop="C06"):
     item = lambda v: v.item
     uses = lambda v0: v0.heap.list_get(SList(sel(H(v0, "uses"), v0.item), "ref"))
     routines = lambda v0: v0.heap.list_get(SList(sel(H(v0, "routines"), v0.item), "ref"))
-    has_if = lambda v0: z3.And(v0.item != 0, z3.Select(v0._e.has_array(v0._p, "interfaces"), v0.item))
-    ifaces = lambda v0: z3.If(has_if(v0), v0.heap.list_get(SList(sel(H(v0, "interfaces"), v0.item), "ref")), z3.Empty(SI))
+    has_l = lambda v0, f: z3.And(v0.item != 0, z3.Select(v0._e.has_array(v0._p, f), v0.item))
+    lst_or_empty = lambda v0, f: z3.If(has_l(v0, f), v0.heap.list_get(SList(sel(H(v0, f), v0.item), "ref")), z3.Empty(SI))
+    # every interface block of the unit: the named / plain ones, then the abstract ones
+    ifaces = lambda v0: z3.Concat(lst_or_empty(v0, "interfaces"), lst_or_empty(v0, "absinterfaces"))
+    routines_of = lambda v, x: v.heap.list_get(SList(sel(H(v, "routines"), x), "ref"))
     has_proc = lambda v, x: z3.And(x != 0, z3.Select(v._e.has_array(v._p, "procedure"), x))
     c.opaque_index = lambda eng, path, container, idx, e: SRef(HEAD(container.t)) if isinstance(container, SRef) else None
 
     def wf(v):
         a0 = v.heap.alloc0
-        ids = [sel(H(v, f), v.item) for f in ("uses", "routines", "interfaces")]
+        ids = [sel(H(v, f), v.item) for f in ("uses", "routines", "interfaces", "absinterfaces")]
         return z3.And(*[z3.And(i > 0, i < a0) for i in ids], z3.Distinct(*ids))
     c.requires("the_lists_of_the_unit_are_distinct_lists_of_the_initial_heap", wf)
 
@@ -50,12 +53,17 @@ def get_deps(prop="C06"):
     def unfold1(v):
         seq = v.it.seq
         return [IPROCS(seq, 0) == z3.Empty(SI),
-                IPROCS(seq, v.k + 1) == z3.Concat(IPROCS(seq, v.k), z3.If(has_proc(E(v), seq[v.k]), z3.Unit(sel(H(E(v), "procedure"), seq[v.k])), z3.Empty(SI)))]
+                # the single procedure of a non-generic block, or every interface body of a generic one
+                IPROCS(seq, v.k + 1) == z3.Concat(IPROCS(seq, v.k), z3.If(has_proc(E(v), seq[v.k]), z3.Unit(sel(H(E(v), "procedure"), seq[v.k])), routines_of(E(v), seq[v.k])))]
 
     def unfold2(v):
         seq = v.it.seq
         return [FLAT(seq, 0) == z3.Empty(SI), FLAT(seq, v.k + 1) == z3.Concat(FLAT(seq, v.k), DEPS(seq[v.k]))]
-    stable = lambda v: z3.And(v.item == E(v).item, uses(v) == uses(E(v)), routines(v) == routines(E(v)), ifaces(v) == ifaces(E(v)), H(v, "procedure") == H(E(v), "procedure"))
+    def stable(v):
+        x = z3.Int("x!routines")
+        return z3.And(v.item == E(v).item, uses(v) == uses(E(v)), routines(v) == routines(E(v)), ifaces(v) == ifaces(E(v)), H(v, "procedure") == H(E(v), "procedure"),
+                      H(v, "routines") == H(E(v), "routines"), z3.ForAll([x], z3.Implies(z3.And(sel(H(v, "routines"), x) > 0, sel(H(v, "routines"), x) < E(v).heap.alloc0),
+                                                                                         routines_of(v, x) == routines_of(E(v), x))))
     ul = lambda v: v.heap.list_get(v.val("uselist"))
     ip = lambda v: v.heap.list_get(v.val("interfaceprocs"))
     heads_all = lambda v0: HEADS(uses(v0), z3.Length(uses(v0)))
